@@ -30,7 +30,10 @@ type monitorDecl struct {
 	Field string // mutex field name
 	Inv   string
 	Rely  string
-	Line  int
+	// Assuming: a standing assumption about the protected state (e.g. counters below their machine
+	// bound), assumed at every acquisition and never owed; listed as an assumption on every use
+	Assuming string
+	Line     int
 }
 
 type monitorStateUnused struct {
@@ -100,13 +103,22 @@ func (vc *VC) monitorCall(name string, c *ssa.CallCommon, st *State, reach Term,
 		vc.flushWF(st)
 		vc.addAssume(reach, vc.monitorClause(md, pc, md.Inv, self, st, st))
 		vc.addAssume(reach, vc.monitorClause(md, pc, md.Rely, self, st, seen))
+		if md.Assuming != "" {
+			vc.addAssume(reach, vc.monitorClause(md, pc, md.Assuming, self, st, st))
+			vc.assume(fmt.Sprintf("monitor %s: standing assumption %s about the protected state (assumed at every acquisition, never owed)", key, md.Assuming))
+		}
 		vc.monitorRecord(st, "$mon.acq:"+key+":")
 		vc.assume(fmt.Sprintf("monitor %s: on acquiring the lock the protected state is arbitrary up to %s and the rely %s (every thread owes both at release: obligations monitor:invariant, monitor:guarantee)", key, md.Inv, md.Rely))
 		return Val{typ: rt}, true
 	}
 	acq := vc.monitorSnapshot(st, "$mon.acq:"+key+":", vc.entry)
-	vc.oblige("monitor", "invariant", reach, vc.monitorClause(md, pc, md.Inv, self, st, st), pos, md.Inv+"("+md.Type+") at release of "+key)
-	vc.oblige("monitor", "guarantee", reach, vc.monitorClause(md, pc, md.Rely, self, st, acq), pos, md.Rely+"("+md.Type+") between acquisition and release of "+key)
+	// one obligation per conjunct of the invariant / guarantee: each query stays small
+	for i, c := range splitAnd(vc.monitorClause(md, pc, md.Inv, self, st, st)) {
+		vc.oblige("monitor", "invariant", reach, c, pos, fmt.Sprintf("%s(%s) at release of %s, conjunct %d", md.Inv, md.Type, key, i+1))
+	}
+	for i, c := range splitAnd(vc.monitorClause(md, pc, md.Rely, self, st, acq)) {
+		vc.oblige("monitor", "guarantee", reach, c, pos, fmt.Sprintf("%s(%s) between acquisition and release of %s, conjunct %d", md.Rely, md.Type, key, i+1))
+	}
 	vc.monitorRecord(st, "$mon.seen:"+key+":")
 	return Val{typ: rt}, true
 }
